@@ -737,12 +737,13 @@ class World:
         for fr in frames:
             fc = self.frames_per_conn.setdefault(m.idx, {"n": 0, "kinds": set()})
             fc["n"] += 1
-            fc["kinds"].add(-1 if fr.src_mod_id != 0 else fr.msg_type)
+            client_frame = self._is_client_frame(fr)
+            fc["kinds"].add(-1 if client_frame else fr.msg_type)
             m.msg_count += 1
             if "framing" in self.oracles and fr.msg_count != m.msg_count:
                 self.viol("seqno/gap-or-repeat", f"conn {m.idx}: frame #{m.msg_count} on this connection "
                           f"(type {fr.msg_type}) carries msg_count {fr.msg_count}")
-            if fr.src_mod_id != 0:
+            if client_frame:
                 tagged.append(fr)
                 self._on_tagged(m, fr)
             else:
@@ -751,6 +752,16 @@ class World:
             self.viol("framing/partial-frame", f"conn {m.idx}: {len(m.conn.rxbuf)} bytes of an incomplete frame "
                       f"left after the manager finished a round")
         return tagged
+
+    def _is_client_frame(self, fr: P.Frame) -> bool:
+        """Client publishes carry a non-zero source id - or, when a connected module published with source id 0 (a header
+        field like any other: it must arrive unchanged), the tag of such a publish in a payload of at least 8 bytes."""
+        if fr.src_mod_id != 0:
+            return True
+        if len(fr.payload) < 8:
+            return False
+        u = self.pubs.get(P.tag_of(fr))
+        return u is not None and u["src"] == 0 and u["type"] == fr.msg_type and u["size"] == fr.num_data_bytes
 
     def _on_tagged(self, m: MMod, fr: P.Frame):
         seq = P.tag_of(fr)
